@@ -197,6 +197,8 @@ def build(path, cfg, r):
         con.execute("CREATE TABLE log0 (x)")
         tables["log0"] = (["x"], False)
         con.execute("CREATE TRIGGER tr0 AFTER DELETE ON t0 BEGIN INSERT INTO log0 VALUES (1); END")
+        # triggers have a name space of their own: one named like the table it is on
+        con.execute("CREATE TRIGGER t0 AFTER INSERT ON log0 BEGIN SELECT 1; END")
 
     # a table that never gets a row: its root page is an empty leaf (content offset = page size; 0 on 64 KiB pages)
     con.execute("CREATE TABLE zempty (a, b)")
